@@ -184,6 +184,8 @@ def run(prop, level, rule, tier, seed, make_strategy, case_fn, confirm_fn, repla
         rc = 3
     ev.write()
     shutil.rmtree(root, ignore_errors=True)
+    if TOOL_ENV.get("LD_LIBRARY_PATH"):
+        shutil.rmtree(os.path.dirname(TOOL_ENV["LD_LIBRARY_PATH"]), ignore_errors=True)
     print("%s %s: %d cases, %d distinct non-trivial, %d violations, known=%s, excluded=%s, %.0fs" % (
         prop, tier, ev.evaluations, len(ev.nontrivial) + ev.nontrivial_counted, ev.violations, ev.known,
         sum(ev.excluded.values()), time.time() - ev.t0))
